@@ -246,7 +246,7 @@ static model::MLib single_path_lib(const model::MLib& m, const model::MPath& p) 
     return one;
 }
 
-std::vector<std::vector<canon::IPt>> path_outline(const model::MLib& m, const model::MPath& p, uint64_t* max_raw_vertices) {
+std::vector<std::vector<canon::IPt>> path_outline(const model::MLib& m, const model::MPath& p, uint64_t* max_raw_vertices, bool expand) {
     if (max_raw_vertices) *max_raw_vertices = 0;
     std::vector<std::vector<canon::IPt>> out;
     Built b = build(single_path_lib(m, p));
@@ -267,7 +267,7 @@ std::vector<std::vector<canon::IPt>> path_outline(const model::MLib& m, const mo
         // to_polygons hands the path's repetition to every polygon; the writer expands it
         std::vector<Vec2> offs;
         Array<Vec2> o = {};
-        if (poly->repetition.type != RepetitionType::None) {
+        if (expand && poly->repetition.type != RepetitionType::None) {
             poly->repetition.get_offsets(o);
             for (uint64_t k = 0; k < o.count; k++) offs.push_back(o[k]);
             o.clear();
@@ -291,7 +291,7 @@ std::vector<std::vector<canon::IPt>> path_outline(const model::MLib& m, const mo
     return out;
 }
 
-std::vector<std::vector<canon::IPt>> robust_centres(const model::MLib& m, const model::MPath& p) {
+std::vector<std::vector<canon::IPt>> robust_centres(const model::MLib& m, const model::MPath& p, bool expand) {
     std::vector<std::vector<canon::IPt>> out;
     Built b = build(single_path_lib(m, p));
     Cell* c = b.lib.cell_array[0];
@@ -300,7 +300,8 @@ std::vector<std::vector<canon::IPt>> robust_centres(const model::MLib& m, const 
         Array<Vec2> pts = {};
         rp->element_center(rp->elements, pts);
         double scaling = m.unit / m.precision;
-        for (auto& off : canon::rep_offsets(p.rep)) {
+        std::vector<model::Pt> offs = expand ? canon::rep_offsets(p.rep) : std::vector<model::Pt>{model::Pt{0, 0}};
+        for (auto& off : offs) {
             double ox = user(m, off.x), oy = user(m, off.y);
             std::vector<canon::IPt> v;
             for (uint64_t k = 0; k < pts.count; k++)
@@ -442,7 +443,10 @@ canon::CLib extract(const Library& lib, const ExtractOptions& opt) {
             std::string line =
                 canon::poly_line(get_layer(p->tag), get_type(p->tag), pts, rep_grid(p->repetition, G),
                                  canon::props_str(props_to_model(p->properties), mode), ok);
-            if (ok) cc.polys.push_back(line);
+            if (ok) {
+                cc.polys.push_back(line);
+                cc.poly_pts[line] = pts;
+            }
         }
         for (uint64_t i = 0; i < cell->flexpath_array.count; i++) {
             const FlexPath* p = cell->flexpath_array[i];
@@ -495,7 +499,8 @@ canon::CLib extract(const Library& lib, const ExtractOptions& opt) {
         if (mode == canon::OAS)
             cc.props.push_back(canon::props_str(props_to_model(cell->properties), canon::OAS));
         if (G.offgrid) {
-            cc.polys.push_back("OFFGRID coordinate found in loaded cell");
+            // OASIS CIRCLE records re-load as sampled polygons whose vertices are not on the grid
+            if (mode == canon::GDS) cc.polys.push_back("OFFGRID coordinate found in loaded cell");
             G.offgrid = false;
         }
         std::sort(cc.polys.begin(), cc.polys.end());
